@@ -234,7 +234,27 @@ pub fn c15_zst<const N: usize>() {
     let mut c2 = sc.clone();
     c2.clone_from(&s);
     vf::check(c2.len() == n0, 1501);
+    // a ZERO-SIZED value type next to ordinary keys: "carries no data" does not mean "needs no clone()" -- a zero-sized permit or
+    // token counts its clones and its destructions like any other value
+    unsafe { ZVCLONES = 0; ZVDROPS = 0; }
+    let mut z: Map<u8, ZV, N> = empty_map();
+    let mut i = 0;
+    while i < N { if i < n0 { vf::check(z.insert(i as u8, ZV).is_none(), 100); } i += 1; }
+    let zc = z.clone();
+    vf::check(unsafe { ZVCLONES } == n0 && unsafe { ZVDROPS } == 0, 1503);
+    vf::check(zc.len() == n0 && zc == z, 1501);
+    drop(zc);
+    vf::check(unsafe { ZVDROPS } == n0 && z.len() == n0, 1504);
+    drop(z);
+    vf::check(unsafe { ZVDROPS } == 2 * n0 && unsafe { ZVCLONES } == n0, 1504);
 }
+pub static mut ZVCLONES: usize = 0;
+pub static mut ZVDROPS: usize = 0;
+/// zero-sized value with an observable Clone and Drop
+#[derive(PartialEq)]
+pub struct ZV;
+impl Clone for ZV { #[inline(never)] fn clone(&self) -> ZV { unsafe { ZVCLONES += 1; } ZV } }
+impl Drop for ZV { #[inline(never)] fn drop(&mut self) { unsafe { ZVDROPS += 1; } } }
 
 /// clone of a container whose element type has NO drop glue but an observable Clone: still one clone per element
 pub fn c15_clone_nodrop<const N: usize>() {
